@@ -368,3 +368,628 @@ def inline_new_constants(tree: ast.Module) -> int:
             T().visit(st)
     ast.fix_missing_locations(tree)
     return n
+
+
+def flatten_private_mixins(trees: dict[str, ast.Module]) -> int:
+    """M0: a private mix-in / helper base class (`class _XMixin:` with no bases of its own beyond object / ABC / Generic) that
+    exactly one class of the same module inherits from is merged into that class: its members become the subclass's own
+    (unless the subclass defines the name itself), so that `Class.method` anchors and per-class method enumerations are
+    independent of how a class was split into bases."""
+    n = 0
+    for t in trees.values():
+        classes = [c for c in t.body if isinstance(c, ast.ClassDef)]
+        by_name = {c.name: c for c in classes}
+        for m in list(classes):
+            if not m.name.startswith('_') or m.name.startswith('__'):
+                continue
+            if any((_dotted(b.value if isinstance(b, ast.Subscript) else b) or '').split('.')[-1] not in ('object', 'ABC', 'Generic', 'Protocol') for b in m.bases):
+                continue
+            if any((_dotted(b.value if isinstance(b, ast.Subscript) else b) or '').split('.')[-1] == 'Protocol' for b in m.bases):
+                continue
+            if m.decorator_list:
+                continue
+            users = [c for c in classes if any(_dotted(b) == m.name for b in c.bases)]
+            other_refs = 0
+            for tt in trees.values():
+                for x in ast.walk(tt):
+                    if isinstance(x, ast.Name) and x.id == m.name and isinstance(x.ctx, ast.Load):
+                        other_refs += 1
+            if len(users) != 1 or other_refs != 1:
+                continue
+            c = users[0]
+            own = {s.name for s in c.body if isinstance(s, (ast.FunctionDef, ast.AsyncFunctionDef, ast.ClassDef))} | \
+                  {tg.id for s in c.body if isinstance(s, ast.Assign) for tg in s.targets if isinstance(tg, ast.Name)} | \
+                  {s.target.id for s in c.body if isinstance(s, ast.AnnAssign) and isinstance(s.target, ast.Name)}
+            moved = []
+            for s in m.body:
+                if isinstance(s, ast.Expr) and isinstance(s.value, ast.Constant):
+                    continue     # docstring
+                if isinstance(s, ast.Pass):
+                    continue
+                nm = getattr(s, 'name', None)
+                if nm is None and isinstance(s, ast.Assign) and isinstance(s.targets[0], ast.Name):
+                    nm = s.targets[0].id
+                if nm is None and isinstance(s, ast.AnnAssign) and isinstance(s.target, ast.Name):
+                    nm = s.target.id
+                if nm in own:
+                    continue
+                moved.append(s)
+            c.body.extend(moved)
+            c.bases = [b for b in c.bases if _dotted(b) != m.name]
+            t.body.remove(m)
+            n += 1
+    return n
+
+
+# ----------------------------------------------------------------------------------------
+# W0: `with <private context manager>(args): BODY`  ->  the try statement it stands for
+
+class _SubstNames(ast.NodeTransformer):
+    def __init__(self, names: dict, self_attrs: Optional[dict] = None, self_name: str = 'self'):
+        self.names = names
+        self.self_attrs = self_attrs or {}
+        self.self_name = self_name
+
+    def visit_Name(self, node: ast.Name):
+        if isinstance(node.ctx, ast.Load) and node.id in self.names:
+            return ast.copy_location(copy.deepcopy(self.names[node.id]), node)
+        return node
+
+    def visit_Attribute(self, node: ast.Attribute):
+        if isinstance(node.value, ast.Name) and node.value.id == self.self_name and node.attr in self.self_attrs and isinstance(node.ctx, ast.Load):
+            return ast.copy_location(copy.deepcopy(self.self_attrs[node.attr]), node)
+        self.generic_visit(node)
+        return node
+
+
+def _bind_call(fn: ast.FunctionDef, call: ast.Call, skip_self: bool) -> Optional[dict]:
+    params = [a.arg for a in fn.args.posonlyargs + fn.args.args]
+    if skip_self:
+        params = params[1:]
+    kwonly = [a.arg for a in fn.args.kwonlyargs]
+    if fn.args.vararg or fn.args.kwarg or any(isinstance(a, ast.Starred) for a in call.args) or any(k.arg is None for k in call.keywords):
+        return None
+    out = {}
+    for p, a in zip(params, call.args):
+        out[p] = a
+    if len(call.args) > len(params):
+        return None
+    for k in call.keywords:
+        if k.arg not in params + kwonly:
+            return None
+        out[k.arg] = k.value
+    # defaults
+    pos_defaults = dict(zip(params[len(params) - len(fn.args.defaults):], fn.args.defaults)) if fn.args.defaults else {}
+    for p in params:
+        if p not in out:
+            if p in pos_defaults:
+                out[p] = pos_defaults[p]
+            else:
+                return None
+    for p, d in zip(kwonly, fn.args.kw_defaults):
+        if p not in out:
+            if d is None:
+                return None
+            out[p] = d
+    return out
+
+
+def _simplify_exit(body: list, et: str, ev: str, raised: bool) -> Optional[list]:
+    """The statements __exit__ executes when an exception is / is not in flight; None if it may swallow or is too clever."""
+    out = []
+    for st in body:
+        if isinstance(st, ast.Expr) and isinstance(st.value, ast.Constant):
+            continue
+        if isinstance(st, ast.Pass):
+            continue
+        if isinstance(st, ast.Return):
+            v = st.value
+            if v is None or (isinstance(v, ast.Constant) and v.value in (False, None)):
+                return out
+            return None
+        if isinstance(st, ast.If):
+            t = st.test
+            val = None
+            neg = False
+            if isinstance(t, ast.UnaryOp) and isinstance(t.op, ast.Not):
+                t, neg = t.operand, True
+            if isinstance(t, ast.Compare) and len(t.ops) == 1 and isinstance(t.left, ast.Name) and t.left.id in (et, ev) \
+                    and isinstance(t.comparators[0], ast.Constant) and t.comparators[0].value is None:
+                if isinstance(t.ops[0], ast.IsNot):
+                    val = raised
+                elif isinstance(t.ops[0], ast.Is):
+                    val = not raised
+            elif isinstance(t, ast.Name) and t.id in (et, ev):
+                val = raised
+            if val is None:
+                if any(isinstance(x, ast.Name) and x.id in (et, ev) for x in ast.walk(st.test)):
+                    return None
+                out.append(st)
+                continue
+            if neg:
+                val = not val
+            sub = _simplify_exit(st.body if val else st.orelse, et, ev, raised)
+            if sub is None:
+                return None
+            out.extend(sub)
+            if (st.body if val else st.orelse) and isinstance((st.body if val else st.orelse)[-1], ast.Return):
+                return out
+            continue
+        if any(isinstance(x, ast.Name) and x.id in (et, ev) for x in ast.walk(st)):
+            return None
+        out.append(st)
+    return out
+
+
+def desugar_private_context_managers(trees: dict[str, ast.Module]) -> int:
+    n = 0
+    for t in trees.values():
+        classes = {c.name: c for c in t.body if isinstance(c, ast.ClassDef) and c.name.startswith('_')}
+        gens = {}
+        for f in t.body:
+            if isinstance(f, ast.FunctionDef) and f.name.startswith('_') and any((_dotted(d) or '').split('.')[-1] == 'contextmanager' for d in f.decorator_list):
+                gens[f.name] = f
+        if not classes and not gens:
+            continue
+
+        def rewrite(st: ast.With) -> Optional[list]:
+            if len(st.items) != 1:
+                return None
+            it = st.items[0]
+            ce = it.context_expr
+            if not isinstance(ce, ast.Call) or not isinstance(ce.func, ast.Name):
+                return None
+            name = ce.func.id
+            if name in classes:
+                c = classes[name]
+                meths = {s.name: s for s in c.body if isinstance(s, ast.FunctionDef)}
+                if '__enter__' not in meths or '__exit__' not in meths or it.optional_vars is not None:
+                    return None
+                attrs = {}
+                if '__init__' in meths:
+                    init = meths['__init__']
+                    b = _bind_call(init, ce, skip_self=True)
+                    if b is None:
+                        return None
+                    sn = init.args.args[0].arg
+                    for s in init.body:
+                        if isinstance(s, ast.Expr) and isinstance(s.value, ast.Constant):
+                            continue
+                        if isinstance(s, (ast.Assign, ast.AnnAssign)):
+                            tg = s.targets[0] if isinstance(s, ast.Assign) else s.target
+                            if isinstance(tg, ast.Attribute) and isinstance(tg.value, ast.Name) and tg.value.id == sn and isinstance(s.value, ast.Name) and s.value.id in b:
+                                attrs[tg.attr] = b[s.value.id]
+                                continue
+                        return None
+                elif ce.args or ce.keywords:
+                    return None
+                for s in meths['__enter__'].body:
+                    if isinstance(s, ast.Expr) and isinstance(s.value, ast.Constant):
+                        continue
+                    if isinstance(s, ast.Pass):
+                        continue
+                    if isinstance(s, ast.Return) and (s.value is None or (isinstance(s.value, ast.Constant) and s.value.value is None)
+                                                      or (isinstance(s.value, ast.Name) and s.value.id == meths['__enter__'].args.args[0].arg)):
+                        continue
+                    return None
+                ex = meths['__exit__']
+                ps = [a.arg for a in ex.args.args]
+                if len(ps) < 3:
+                    return None
+                sn, et, ev = ps[0], ps[1], ps[2]
+                on_exc = _simplify_exit(ex.body, et, ev, True)
+                on_ok = _simplify_exit(ex.body, et, ev, False)
+                if on_exc is None or on_ok is None:
+                    return None
+                sub = _SubstNames({}, attrs, sn)
+                on_exc = [sub.visit(copy.deepcopy(s)) for s in on_exc]
+                on_ok = [sub.visit(copy.deepcopy(s)) for s in on_ok]
+                if [ast.dump(s) for s in on_exc] == [ast.dump(s) for s in on_ok]:
+                    new = ast.Try(body=st.body, handlers=[], orelse=[], finalbody=on_exc or [ast.Pass()])
+                else:
+                    h = ast.ExceptHandler(type=ast.Name(id='BaseException', ctx=ast.Load()), name=None, body=on_exc + [ast.Raise(exc=None, cause=None)])
+                    new = ast.Try(body=st.body, handlers=[h], orelse=on_ok, finalbody=[])
+                return [new]
+            if name in gens:
+                f = gens[name]
+                b = _bind_call(f, ce, skip_self=False)
+                if b is None or it.optional_vars is not None:
+                    return None
+                yields = [x for x in ast.walk(f) if isinstance(x, (ast.Yield, ast.YieldFrom))]
+                if len(yields) != 1 or isinstance(yields[0], ast.YieldFrom):
+                    return None
+                body = [s for s in f.body if not (isinstance(s, ast.Expr) and isinstance(s.value, ast.Constant))]
+
+                def is_yield(s):
+                    return isinstance(s, ast.Expr) and s.value is yields[0]
+                sub = _SubstNames(b)
+                out = []
+                done = False
+                for s in body:
+                    if is_yield(s):
+                        out.extend(st.body)
+                        done = True
+                    elif isinstance(s, ast.Try) and not s.handlers and not s.orelse and any(is_yield(x) for x in s.body):
+                        nb = []
+                        for x in s.body:
+                            if is_yield(x):
+                                nb.extend(st.body)
+                            else:
+                                nb.append(sub.visit(copy.deepcopy(x)))
+                        out.append(ast.Try(body=nb, handlers=[], orelse=[], finalbody=[sub.visit(copy.deepcopy(x)) for x in s.finalbody]))
+                        done = True
+                    elif any(y is yields[0] for y in ast.walk(s)):
+                        return None
+                    else:
+                        out.append(sub.visit(copy.deepcopy(s)))
+                return out if done else None
+            return None
+
+        changed = True
+        while changed:
+            changed = False
+            for owner in ast.walk(t):
+                for fld in ('body', 'orelse', 'finalbody'):
+                    blk = getattr(owner, fld, None)
+                    if not (isinstance(blk, list) and blk and isinstance(blk[0], ast.stmt)):
+                        continue
+                    for i, st in enumerate(blk):
+                        if isinstance(st, ast.With):
+                            new = rewrite(st)
+                            if new is not None:
+                                for x in new:
+                                    ast.copy_location(x, st)
+                                    for y in ast.walk(x):
+                                        if isinstance(y, (ast.stmt, ast.expr, ast.ExceptHandler)) and not hasattr(y, 'lineno'):
+                                            ast.copy_location(y, st)
+                                blk[i:i + 1] = new
+                                n += 1
+                                changed = True
+                                break
+                    if changed:
+                        break
+                if changed:
+                    break
+        # definitions whose every use was rewritten are dropped (their statements now live at the use sites)
+        for nm, d in list(classes.items()) + list(gens.items()):
+            refs = 0
+            for tt in trees.values():
+                for x in ast.walk(tt):
+                    if isinstance(x, ast.Name) and x.id == nm and isinstance(x.ctx, ast.Load):
+                        refs += 1
+                    elif isinstance(x, ast.alias) and (x.asname or x.name) == nm:
+                        refs += 1
+            is_cm = (nm in gens) or any(isinstance(m, ast.FunctionDef) and m.name == '__exit__' for m in d.body)
+            if refs == 0 and is_cm and d in t.body:
+                t.body.remove(d)
+        ast.fix_missing_locations(t)
+    return n
+
+
+# ----------------------------------------------------------------------------------------
+# F0: private callable class (only __init__ storing its arguments and __call__)  ->  a local closure at the place it is
+#     instantiated:   `consumer = _Consumer(q, d)`  ->  `def consumer(): <__call__ body with self.x replaced by the arguments>`
+
+def callable_classes_to_closures(trees: dict[str, ast.Module]) -> int:
+    n = 0
+    for t in trees.values():
+        cands = {}
+        for c in t.body:
+            if not (isinstance(c, ast.ClassDef) and c.name.startswith('_') and not c.bases and not c.decorator_list):
+                continue
+            meths = {s.name: s for s in c.body if isinstance(s, ast.FunctionDef)}
+            others = [s for s in c.body if not isinstance(s, ast.FunctionDef) and not (isinstance(s, ast.Expr) and isinstance(s.value, ast.Constant))
+                      and not (isinstance(s, ast.AnnAssign) and s.value is None)]
+            if set(meths) - {'__init__', '__call__'} or '__call__' not in meths or others:
+                continue
+            call = meths['__call__']
+            sn = call.args.args[0].arg
+            if any(isinstance(x, ast.Attribute) and isinstance(x.value, ast.Name) and x.value.id == sn and isinstance(x.ctx, (ast.Store, ast.Del))
+                   for x in ast.walk(call)):
+                continue      # keeps state on itself
+            if any(isinstance(x, ast.Name) and x.id == sn and not isinstance(getattr(x, '_parent_attr', None), ast.Attribute) for x in []):
+                continue
+            cands[c.name] = (c, meths)
+        if not cands:
+            continue
+        for owner in list(ast.walk(t)):
+            for fld in ('body', 'orelse', 'finalbody'):
+                blk = getattr(owner, fld, None)
+                if not (isinstance(blk, list) and blk and isinstance(blk[0], ast.stmt)):
+                    continue
+                i = 0
+                while i < len(blk):
+                    st = blk[i]
+                    if isinstance(st, (ast.FunctionDef, ast.AsyncFunctionDef, ast.ClassDef, ast.If, ast.For, ast.While, ast.Try, ast.With)):
+                        i += 1
+                        continue
+                    ctor = next((x for x in ast.walk(st) if isinstance(x, ast.Call) and isinstance(x.func, ast.Name) and x.func.id in cands), None)
+                    if ctor is None:
+                        i += 1
+                        continue
+                    c, meths = cands[ctor.func.id]
+                    attrs = {}
+                    ok = True
+                    if '__init__' in meths:
+                        init = meths['__init__']
+                        b = _bind_call(init, ctor, skip_self=True)
+                        if b is None:
+                            ok = False
+                        else:
+                            isn = init.args.args[0].arg
+                            for s in init.body:
+                                if isinstance(s, ast.Expr) and isinstance(s.value, ast.Constant):
+                                    continue
+                                tg = s.targets[0] if isinstance(s, ast.Assign) and len(s.targets) == 1 else (s.target if isinstance(s, ast.AnnAssign) else None)
+                                val = getattr(s, 'value', None)
+                                if isinstance(tg, ast.Attribute) and isinstance(tg.value, ast.Name) and tg.value.id == isn and isinstance(val, ast.Name) and val.id in b:
+                                    attrs[tg.attr] = b[val.id]
+                                else:
+                                    ok = False
+                    elif ctor.args or ctor.keywords:
+                        ok = False
+                    call = meths['__call__']
+                    sn = call.args.args[0].arg
+                    # every use of self inside __call__ must be an attribute read we can substitute
+                    for x in ast.walk(call):
+                        if isinstance(x, ast.Attribute) and isinstance(x.value, ast.Name) and x.value.id == sn and x.attr not in attrs:
+                            ok = False
+                    if not ok:
+                        i += 1
+                        continue
+                    if isinstance(st, ast.Assign) and st.value is ctor and len(st.targets) == 1 and isinstance(st.targets[0], ast.Name):
+                        fname = st.targets[0].id
+                        replace_stmt = True
+                    else:
+                        fname = f'_callable_{getattr(st, "lineno", 0)}_{n}'
+                        replace_stmt = False
+                    sub = _SubstNames({}, attrs, sn)
+                    body = [sub.visit(copy.deepcopy(s)) for s in call.body if not (isinstance(s, ast.Expr) and isinstance(s.value, ast.Constant))] or [ast.Pass()]
+                    args = copy.deepcopy(call.args)
+                    args.args = args.args[1:]
+                    fdef = ast.FunctionDef(name=fname, args=args, body=body, decorator_list=[], returns=None, type_comment=None, type_params=[])
+                    ast.copy_location(fdef, st)
+                    for y in ast.walk(fdef):
+                        if isinstance(y, (ast.stmt, ast.expr, ast.arg, ast.ExceptHandler)) and not hasattr(y, 'lineno'):
+                            ast.copy_location(y, st)
+                    if replace_stmt:
+                        blk[i] = fdef
+                    else:
+                        class R(ast.NodeTransformer):
+                            def visit_Call(self, node):
+                                if node is ctor:
+                                    return ast.copy_location(ast.Name(id=fname, ctx=ast.Load()), node)
+                                self.generic_visit(node)
+                                return node
+                        blk[i] = R().visit(st)
+                        blk.insert(i, fdef)
+                        i += 1
+                    n += 1
+                    i += 1
+        # drop classes that are no longer referenced
+        for nm, (c, _m) in cands.items():
+            refs = sum(1 for tt in trees.values() for x in ast.walk(tt) if isinstance(x, ast.Name) and x.id == nm and isinstance(x.ctx, ast.Load))
+            if refs == 0 and c in t.body:
+                t.body.remove(c)
+        ast.fix_missing_locations(t)
+    return n
+
+
+# ----------------------------------------------------------------------------------------
+# O0: a private bookkeeping class held in one attribute of another class (`self.pending = _PendingDependencies()`) is
+#     dissolved into its holder: its attributes become `self.pending__<attr>`, its methods become private methods
+#     `_pending__<method>` of the holder (which the helper inliner then fills in at their single call sites).
+
+def dissolve_private_holders(trees: dict[str, ast.Module]) -> int:
+    n = 0
+    for t in trees.values():
+        classes = {c.name: c for c in t.body if isinstance(c, ast.ClassDef)}
+        for wname, w in list(classes.items()):
+            if not wname.startswith('_') or wname.startswith('__') or w.decorator_list:
+                continue
+            if any((_dotted(b.value if isinstance(b, ast.Subscript) else b) or '').split('.')[-1] not in ('object', 'Generic') for b in w.bases):
+                continue
+            meths = {s.name: s for s in w.body if isinstance(s, ast.FunctionDef)}
+            others = [s for s in w.body if not isinstance(s, ast.FunctionDef) and not (isinstance(s, ast.Expr) and isinstance(s.value, ast.Constant))
+                      and not (isinstance(s, ast.AnnAssign) and s.value is None)]
+            if others or '__init__' not in meths or any(m.startswith('__') and m != '__init__' for m in meths) or len(meths) < 2:
+                continue
+            init = meths['__init__']
+            isn = init.args.args[0].arg
+            attr_inits = []
+            ok = True
+            for s in init.body:
+                if isinstance(s, ast.Expr) and isinstance(s.value, ast.Constant):
+                    continue
+                tg = s.targets[0] if isinstance(s, ast.Assign) and len(s.targets) == 1 else (s.target if isinstance(s, ast.AnnAssign) and s.value is not None else None)
+                if isinstance(tg, ast.Attribute) and isinstance(tg.value, ast.Name) and tg.value.id == isn \
+                        and not any(isinstance(x, ast.Name) and x.id == isn for x in ast.walk(s.value)):
+                    attr_inits.append((tg.attr, s.value, s))
+                else:
+                    ok = False
+            if not ok or not attr_inits:
+                continue
+            attrs = {a for a, _v, _s in attr_inits}
+            # methods touch self only through those attributes
+            for m in meths.values():
+                sn = m.args.args[0].arg if m.args.args else None
+                if sn is None or any(d for d in m.decorator_list):
+                    ok = False
+                    break
+                for x in ast.walk(m):
+                    if isinstance(x, ast.Name) and x.id == sn:
+                        pass
+                for x in ast.walk(m):
+                    if isinstance(x, ast.Attribute) and isinstance(x.value, ast.Name) and x.value.id == sn and x.attr not in attrs and x.attr not in meths:
+                        ok = False
+                bare = [x for x in ast.walk(m) if isinstance(x, ast.Name) and x.id == sn]
+                attr_bases = [x.value for x in ast.walk(m) if isinstance(x, ast.Attribute) and isinstance(x.value, ast.Name) and x.value.id == sn]
+                if len(bare) != len(attr_bases) + 0 and m is not init:
+                    ok = False
+                if m is init and len(bare) != len(attr_bases):
+                    ok = False
+            if not ok:
+                continue
+            # every construction is `self.<f> = W(args)` in a method of one holder class; every other reference is absent
+            ctor_sites = []
+            refs = 0
+            for tt in trees.values():
+                for x in ast.walk(tt):
+                    if isinstance(x, ast.Name) and x.id == wname and isinstance(x.ctx, ast.Load):
+                        refs += 1
+            holder = None
+            field = None
+            for hname, h in classes.items():
+                if h is w:
+                    continue
+                for x in ast.walk(h):
+                    if isinstance(x, (ast.Assign, ast.AnnAssign)) and isinstance(getattr(x, 'value', None), ast.Call) \
+                            and isinstance(x.value.func, ast.Name) and x.value.func.id == wname:
+                        tg = x.targets[0] if isinstance(x, ast.Assign) and len(x.targets) == 1 else getattr(x, 'target', None)
+                        if isinstance(tg, ast.Attribute) and isinstance(tg.value, ast.Name) and tg.value.id == 'self':
+                            ctor_sites.append((h, x, tg.attr))
+            # annotations mentioning W count as references too; allow exactly the constructor calls
+            if len(ctor_sites) != 1 or refs != 1:
+                continue
+            holder, site, field = ctor_sites[0]
+            b = _bind_call(init, site.value, skip_self=True)
+            if b is None:
+                continue
+            # every use of self.<field> in the module is self.<field>.<method>(...) or self.<field>.<attr>
+            bad_use = False
+            for x in ast.walk(t):
+                if isinstance(x, ast.Attribute) and x.attr == field and isinstance(x.value, ast.Name) and x.value.id == 'self' and isinstance(x.ctx, ast.Load):
+                    pass
+            parents = {}
+            for x in ast.walk(t):
+                for ch in ast.iter_child_nodes(x):
+                    parents[id(ch)] = x
+            for x in ast.walk(t):
+                if isinstance(x, ast.Attribute) and x.attr == field and isinstance(x.value, ast.Name) and x.value.id == 'self':
+                    p = parents.get(id(x))
+                    if isinstance(x.ctx, ast.Store):
+                        if p is not site and not (isinstance(p, (ast.Assign, ast.AnnAssign)) and p is site):
+                            bad_use = True
+                        continue
+                    if not (isinstance(p, ast.Attribute) and (p.attr in meths or p.attr in attrs)):
+                        bad_use = True
+            if bad_use:
+                continue
+            pref = f'{field}__'
+            mpref = '_' + field.lstrip('_') + '__'
+            # 1. constructor -> attribute initialisations on the holder
+            sub_args = _SubstNames(b)
+            new_inits = []
+            for a, v, s0 in attr_inits:
+                st = ast.Assign(targets=[ast.Attribute(value=ast.Name(id='self', ctx=ast.Load()), attr=pref + a, ctx=ast.Store())],
+                                value=sub_args.visit(copy.deepcopy(v)))
+                ast.copy_location(st, site)
+                new_inits.append(st)
+            for owner in ast.walk(holder):
+                for fld in ('body', 'orelse', 'finalbody'):
+                    blk = getattr(owner, fld, None)
+                    if isinstance(blk, list) and site in blk:
+                        i = blk.index(site)
+                        blk[i:i + 1] = new_inits
+            # 2. methods -> private methods of the holder, attributes renamed
+            class RenameAttrs(ast.NodeTransformer):
+                def __init__(self, sn):
+                    self.sn = sn
+
+                def visit_Attribute(self, node):
+                    self.generic_visit(node)
+                    if isinstance(node.value, ast.Name) and node.value.id == self.sn:
+                        if node.attr in attrs:
+                            node.attr = pref + node.attr
+                        elif node.attr in meths:
+                            node.attr = mpref + node.attr
+                    return node
+            for mname, m in meths.items():
+                if mname == '__init__':
+                    continue
+                m2 = copy.deepcopy(m)
+                sn = m2.args.args[0].arg
+                RenameAttrs(sn).visit(m2)
+                if sn != 'self':
+                    for x in ast.walk(m2):
+                        if isinstance(x, ast.Name) and x.id == sn:
+                            x.id = 'self'
+                    m2.args.args[0].arg = 'self'
+                m2.name = mpref + mname
+                holder.body.append(m2)
+            # 3. uses: self.<field>.<m>(...) -> self._<field>__<m>(...);  self.<field>.<attr> -> self.<field>__<attr>
+            class Uses(ast.NodeTransformer):
+                def visit_Attribute(self, node):
+                    self.generic_visit(node)
+                    v = node.value
+                    if isinstance(v, ast.Attribute) and v.attr == field and isinstance(v.value, ast.Name) and v.value.id == 'self':
+                        if node.attr in meths:
+                            return ast.copy_location(ast.Attribute(value=v.value, attr=mpref + node.attr, ctx=node.ctx), node)
+                        if node.attr in attrs:
+                            return ast.copy_location(ast.Attribute(value=v.value, attr=pref + node.attr, ctx=node.ctx), node)
+                    return node
+            Uses().visit(t)
+            t.body.remove(w)
+            del classes[wname]
+            n += 1
+        ast.fix_missing_locations(t)
+    return n
+
+
+# ----------------------------------------------------------------------------------------
+# A0: a private *pure forwarding adapter* (`__init__(self, x): self._x = x`; every other method `m(self, *a)` is
+#     `[return] self._x.m(*a)`)  ->  the wrapped object itself
+
+def drop_forwarding_adapters(trees: dict[str, ast.Module]) -> int:
+    n = 0
+    for t in trees.values():
+        for c in [c for c in t.body if isinstance(c, ast.ClassDef) and c.name.startswith('_') and not c.bases and not c.decorator_list]:
+            meths = {s.name: s for s in c.body if isinstance(s, ast.FunctionDef)}
+            others = [s for s in c.body if not isinstance(s, ast.FunctionDef) and not (isinstance(s, ast.Expr) and isinstance(s.value, ast.Constant))]
+            init = meths.get('__init__')
+            if others or init is None or len(meths) < 2 or len(init.args.args) != 2 or init.args.kwonlyargs or init.args.vararg or init.args.kwarg:
+                continue
+            body = [s for s in init.body if not (isinstance(s, ast.Expr) and isinstance(s.value, ast.Constant))]
+            if len(body) != 1:
+                continue
+            s0 = body[0]
+            tg = s0.targets[0] if isinstance(s0, ast.Assign) and len(s0.targets) == 1 else (s0.target if isinstance(s0, ast.AnnAssign) else None)
+            if not (isinstance(tg, ast.Attribute) and isinstance(tg.value, ast.Name) and tg.value.id == init.args.args[0].arg
+                    and isinstance(getattr(s0, 'value', None), ast.Name) and s0.value.id == init.args.args[1].arg):
+                continue
+            inner = tg.attr
+            ok = True
+            for name, m in meths.items():
+                if name == '__init__':
+                    continue
+                mb = [s for s in m.body if not (isinstance(s, ast.Expr) and isinstance(s.value, ast.Constant))]
+                if len(mb) != 1 or m.decorator_list:
+                    ok = False
+                    break
+                e = mb[0].value if isinstance(mb[0], (ast.Return, ast.Expr)) else None
+                sn = m.args.args[0].arg
+                params = [a.arg for a in m.args.args[1:]]
+                if not (isinstance(e, ast.Call) and isinstance(e.func, ast.Attribute) and e.func.attr == name and isinstance(e.func.value, ast.Attribute)
+                        and e.func.value.attr == inner and isinstance(e.func.value.value, ast.Name) and e.func.value.value.id == sn
+                        and [getattr(a, 'id', None) for a in e.args] == params
+                        and all(k.arg is not None and isinstance(k.value, ast.Name) and k.value.id == k.arg for k in e.keywords)):
+                    ok = False
+                    break
+            if not ok:
+                continue
+            cname = c.name
+
+            class R(ast.NodeTransformer):
+                def visit_Call(self, node):
+                    self.generic_visit(node)
+                    if isinstance(node.func, ast.Name) and node.func.id == cname and len(node.args) + len(node.keywords) == 1:
+                        return node.args[0] if node.args else node.keywords[0].value
+                    return node
+            for tt in trees.values():
+                R().visit(tt)
+            refs = sum(1 for tt in trees.values() for x in ast.walk(tt) if isinstance(x, ast.Name) and x.id == cname and isinstance(x.ctx, ast.Load))
+            if refs == 0:
+                t.body.remove(c)
+            n += 1
+        ast.fix_missing_locations(t)
+    return n
